@@ -15,7 +15,10 @@ func H_has() {
 	}
 	verifAssert(got == inter, "Op.Has(h) is true exactly when the sets intersect")
 	e := Event{Name: "x", Op: o}
-	verifAssert(e.Has(h) == got, "Event.Has agrees with Op.Has")
+	if verifBool("renamed-from") { // the Create half of a rename carries the old name; it is not part of the operation set
+		e.renamedFrom = "/t/old"
+	}
+	verifAssert(e.Has(h) == got, "Event.Has agrees with Op.Has, whatever else the event carries")
 	verifReach("has")
 }
 
